@@ -2,6 +2,7 @@ SPECIFICATION Spec
 CONSTANTS
   MaxToks = 2
   Level = 3
+  LevelNext = 3
   Glue = TRUE
   Dump = TRUE
 INVARIANT AllValid
